@@ -26,13 +26,21 @@ impl RdhHistory {
     }
     /// (offsets with expected [E10], offsets with expected [E11]) under the reference models.
     pub fn expected(&self, its: bool) -> (Vec<u64>, Vec<u64>) {
+        self.expected_with_version(its, None)
+    }
+    /// As `expected`; with `fixed_version` the header version every RDH is judged against is the
+    /// configured one (custom checks `rdh_version`) instead of the first one the link saw.
+    pub fn expected_with_version(&self, its: bool, fixed_version: Option<u8>) -> (Vec<u64>, Vec<u64>) {
         let mut first_version: std::collections::BTreeMap<u8, u8> = Default::default();
         let mut running: std::collections::BTreeMap<u8, RunningModel> = Default::default();
         let mut e10 = Vec::new();
         let mut e11 = Vec::new();
         for (i, r) in self.wire.iter().enumerate() {
             let off = (i * 64) as u64;
-            let fv = *first_version.entry(r.link_id).or_insert(r.version);
+            let fv = match fixed_version {
+                Some(v) => v,
+                None => *first_version.entry(r.link_id).or_insert(r.version),
+            };
             if rdh_sanity_fails(r, fv, its) {
                 e10.push(off);
             }
